@@ -35,6 +35,7 @@ type scenario struct {
 	cancel     bool // caller cancellation thread; outcome "wait for ctx then fail" offered
 	noCancelV  bool // DoUntilQuorumWithoutSuccessfulContextCancellation
 	sorter     bool // fixed zone order
+	ctxTerm    bool // outcome "terminal error, but only after the call's own context has ended" offered (with terminal)
 }
 
 func (s scenario) String() string {
@@ -118,27 +119,34 @@ func runOne(t *testing.T, sc scenario, ch *sched.Chooser) (res sched.Result) {
 			c := &fcall{id: in.Id, zone: in.Zone, ctx: fctx, startStepTick: ticks}
 			calls[in.Id] = c
 			sched.Obs("f-start " + in.Id)
-			alts := 2
-			if sc.terminal {
-				alts++
+			kinds := []string{"ok", "err"}
+			if sc.terminal && !sc.ctxTerm {
+				kinds = append(kinds, "term")
 			}
-			if sc.cancel {
-				alts++
+			if sc.cancel && !sc.ctxTerm {
+				kinds = append(kinds, "ctx")
 			}
-			k := sched.Choose("outcome", alts, false)
-			if k == 2 && !sc.terminal {
-				k = 3
+			if sc.ctxTerm { // the canceller is only there to end executions in which such a call would wait for ever
+				kinds = append(kinds, "ctxterm")
 			}
-			switch k {
-			case 0:
+			switch kinds[sched.Choose("outcome", len(kinds), false)] {
+			case "ok":
 				c.outcome = "ok"
 				sched.Obs("f-end " + in.Id + " ok")
 				return in.Id, nil
-			case 1:
+			case "err":
 				c.outcome = "err"
 				sched.Obs("f-end " + in.Id + " err")
 				return "", fmt.Errorf("failure of %s", in.Id)
-			case 2:
+			case "term":
+				c.outcome = "term"
+				sched.Obs("f-end " + in.Id + " term")
+				return "", fmt.Errorf("%w at %s", errTerminal, in.Id)
+			case "ctxterm":
+				// answers only once its own context has ended (its zone failed, or the call is over), and then with
+				// a terminal error
+				<-fctx.Done()
+				sched.Yield("f-ctx-done")
 				c.outcome = "term"
 				sched.Obs("f-end " + in.Id + " term")
 				return "", fmt.Errorf("%w at %s", errTerminal, in.Id)
@@ -268,6 +276,45 @@ func runOne(t *testing.T, sc scenario, ch *sched.Chooser) (res sched.Result) {
 			for _, id := range retIDs {
 				if !okBefore[id] {
 					fail("phantom-result", "returned result %q does not come from a call that had succeeded before the return", id)
+				}
+			}
+			if retErr == nil && termBefore {
+				// Results are processed in the order the calls return. If the successes that had returned before the
+				// first terminal error did not yet satisfy the success criterion, the caller has seen the terminal error
+				// first and must have returned it.
+				var termSeq int64
+				for _, cid := range sortedIDs(calls) {
+					if c := calls[cid]; c.outcome == "term" && c.endSeq != 0 && (termSeq == 0 || c.endSeq < termSeq) {
+						termSeq = c.endSeq
+					}
+				}
+				okZ, badZ, oks := map[string]int{}, map[string]bool{}, 0
+				for _, cid := range sortedIDs(calls) {
+					c := calls[cid]
+					if c.endSeq == 0 || c.endSeq >= termSeq {
+						continue
+					}
+					if c.outcome == "ok" {
+						oks++
+						okZ[c.zone]++
+					} else {
+						badZ[c.zone] = true
+					}
+				}
+				satisfied := false
+				if !zoneMode {
+					satisfied = oks >= n-sc.maxErrors
+				} else {
+					good := 0
+					for z, total := range zonesAll {
+						if !badZ[z] && okZ[z] == total {
+							good++
+						}
+					}
+					satisfied = good >= len(zonesAll)-sc.maxUnavail
+				}
+				if !satisfied {
+					fail("terminal-ignored", "returned success %v although a call had returned a terminal error before the successes needed for it had all arrived", retIDs)
 				}
 			}
 			if retErr == nil {
@@ -472,6 +519,20 @@ func scenarios() []scenario {
 		}
 		out = append(out, scenario{name: "zones-cancel", zones: l, maxUnavail: 1, zoneAware: true, minimize: true, cancel: true, sorter: true})
 		out = append(out, scenario{name: "zones-nocancel-variant", zones: l, maxUnavail: 1, zoneAware: true, minimize: false, noCancelV: true})
+		// a terminal error is terminal also when the call that returns it had its context cancelled (its zone failed)
+		multi := false
+		for _, z := range l {
+			k := 0
+			for _, y := range l {
+				if y == z {
+					k++
+				}
+			}
+			multi = multi || k > 1
+		}
+		if multi && (len(l) <= 3 || ev.Thorough()) {
+			out = append(out, scenario{name: "zones-terminal", zones: l, maxUnavail: 1, zoneAware: true, minimize: false, terminal: true, ctxTerm: true, cancel: true, sorter: true})
+		}
 	}
 	return out
 }
@@ -486,8 +547,8 @@ func TestC11(t *testing.T) {
 		fmt.Sscan(b, &bound)
 	}
 	scs := scenarios()
-	rep.Bound = fmt.Sprintf("%d scenarios: replication sets of 1..3 (thorough 4) instances without zones (every MaxErrors 0..n) and in zone layouts (every MaxUnavailableZones), minimisation on/off, hedging (virtual clock, tick is an explorer choice), terminal-error predicate, caller cancellation, non-cancelling variant, fixed zone sorter; per call outcome ∈ {ok, error, terminal error, fail only after its context ends}; rand.Perm / rand.Shuffle answers enumerated; all schedules with <= %d preemptions", len(scs), bound)
-	rep.Rule = "stateless DFS on the real DoUntilQuorum / …WithoutSuccessfulContextCancellation; oracle from the observation log: results only from successful calls, success only when the criterion holds at return (count, or exactly the instances of complete failure-free zones), error only beyond tolerance / terminal / cancelled and equal to the deciding error, each instance called at most once, minimisation bound at every call start, every unreturned success cleaned up exactly once, contexts of unused calls cancelled; distinct_nontrivial = distinct (scenario, returned set, outcome vector, hedge ticks)"
+	rep.Bound = fmt.Sprintf("%d scenarios: replication sets of 1..3 (thorough 4) instances without zones (every MaxErrors 0..n) and in zone layouts (every MaxUnavailableZones), minimisation on/off, hedging (virtual clock, tick is an explorer choice), terminal-error predicate, caller cancellation, non-cancelling variant, fixed zone sorter; per call outcome ∈ {ok, error, terminal error, fail only after its context ends, terminal error only after its context ends}; rand.Perm / rand.Shuffle answers enumerated; all schedules with <= %d preemptions", len(scs), bound)
+	rep.Rule = "stateless DFS on the real DoUntilQuorum / …WithoutSuccessfulContextCancellation; oracle from the observation log: results only from successful calls, success only when the criterion holds at return (count, or exactly the instances of complete failure-free zones), error only beyond tolerance / terminal / cancelled and equal to the deciding error, no success once a terminal error arrived before the successes that justify it, each instance called at most once, minimisation bound at every call start, every unreturned success cleaned up exactly once, contexts of unused calls cancelled; distinct_nontrivial = distinct (scenario, returned set, outcome vector, hedge ticks)"
 	deadline := ev.Deadline(8 * time.Minute)
 	for _, sc := range scs {
 		x := &sched.Explorer{Bound: bound, Report: rep, Deadline: deadline, Scenario: sc.String(), Run: func(c *sched.Chooser) sched.Result { return runOne(t, sc, c) }}
